@@ -334,6 +334,68 @@ Definition beq_outcome (a b : outcome) : bool :=
   beq_all beq_ev (o_events a) (o_events b) && beq_all beq_wr (o_writes a) (o_writes b) &&
   Bool.eqb (o_queued a) (o_queued b).
 
+(* ---------- register histories: the player's known channel set as state ----------
+   clientsideChannels is a set of the RAW channel strings that validated; its size feeds getChannels'
+   cap test.  Registrations add to it, unregistrations remove from it (client play handler, register /
+   unregister branch reached). *)
+Fixpoint keep_valid_raw (f : bytes -> option bytes) (l : list bytes) : list bytes :=
+  match l with
+  | [] => []
+  | c :: r => match f c with Some _ => c :: keep_valid_raw f r | None => keep_valid_raw f r end
+  end.
+(* the second result of getChannels: the raw strings *)
+Definition parse_raw (ver13 : bool) (existing : N) (data : bytes) : list bytes :=
+  match data with
+  | [] => []
+  | _ =>
+    if 32767 <? N.of_nat (length data) then []
+    else
+      let chans := split0 [] data in
+      if 1024 <? existing + N.of_nat (length chans) then []
+      else keep_valid_raw (if ver13 then identifier_from else new_identifier s_minecraft) chans
+  end.
+Definition mem (x : bytes) (l : list bytes) : bool := existsb (beq_bytes x) l.
+Definition add_all (known l : list bytes) : list bytes :=
+  fold_left (fun k x => if mem x k then k else k ++ [x]) l known.
+Definition remove_all (known l : list bytes) : list bytes := filter (fun x => negb (mem x l)) known.
+
+Definition with_existing (e : env) (n : N) : env :=
+  mkEnv (e_ver13 e) n (e_connected e) (e_inflight e) (e_client_complete e) (e_known e) (e_sub e) (e_ready e).
+
+Definition branch_reached (e : env) : bool :=
+  match e_connected e with Some s => s_has_conn s && s_play s | None => false end.
+
+Definition known_after (known : list bytes) (e : env) (m : msg) : list bytes :=
+  if branch_reached e then
+    match classify (m_ch m) with
+    | KRegister => add_all known (parse_raw (e_ver13 e) (N.of_nat (length known)) (m_data m))
+    | KUnregister => remove_all known (parse_raw (e_ver13 e) 0 (m_data m))
+    | _ => known
+    end
+  else known.
+
+(* every step with the environment it ran in (existing = size of the known set at that moment) *)
+Fixpoint reg_history (fixed1 fixed2 : bool) (known : list bytes) (e : env) (ms : list msg) : list (env * outcome) :=
+  match ms with
+  | [] => []
+  | m :: r =>
+    let e' := with_existing e (N.of_nat (length known)) in
+    (e', handle fixed1 fixed2 HClientPlay e' m) :: reg_history fixed1 fixed2 (known_after known e m) e r
+  end.
+
+Fixpoint reg_hist_holds (steps : list (env * outcome)) (ms : list msg) (obs : list outcome) : bool :=
+  match steps, ms, obs with
+  | [], [], [] => true
+  | (e, _) :: st', m :: ms', o :: obs' => holds_P HClientPlay e m o && reg_hist_holds st' ms' obs'
+  | _, _, _ => false
+  end.
+Fixpoint reg_hist_equal (steps : list (env * outcome)) (obs : list outcome) : bool :=
+  match steps, obs with
+  | [], [] => true
+  | (_, o') :: st', o :: obs' => beq_outcome o o' && reg_hist_equal st' obs'
+  | _, _ => false
+  end.
+
 (* what the blocking subscriber of one message of a history saw, and what was written for it:
    Data() when the subscriber started, Data() when it was released (after the NEXT message had been
    handled), and the writes of that message's forward callback *)
